@@ -11,7 +11,7 @@ use serde::{Deserialize, Serialize};
 use serde_json::json;
 use std::collections::HashMap;
 
-pub const RULE: &str = "operation sequences over Insert(key, depth, bound, score, move; age = current generation, as the search does) / Probe(key) / NewSearch(x1..300) / Reset / Resize(mb) on TranspositionTable<SearchTranspositionTableData> of 0, 1, 2, 3 MB (thorough: also 64 and 1024). Keys are constructed to collide: key = slot + mult * entries for a few chosen slots, with multipliers that make the colliding keys differ only in low bits, only above bit 32 or only above bit 48, plus a few random keys. Reference model: slot -> set of admissible entries with the true (unbounded) search counter: a probe may return data only for exactly the stored key and then exactly the model's entry; entries of earlier searches always give way; within one search an exact entry is displaced only by an exact or deeper one; where the statement is silent (non-exact old entry, same search, new not deeper and not exact) both outcomes are kept and narrowed by the next observation; Reset and size-changing Resize empty the table (every probe misses, occupied == 0); occupied equals the model's count and occupancy() = floor(1000*occupied/entries) +- 1; no panic for any size or number of searches. A 'fill_indicator' part checks occupancy() at every 1/64 fill level (and around 2^32/1000 occupied slots) of tables from 1 to 256 MB (thorough: to 1024 MB). A 'big_table_edges' part runs the same model-based sequences (with many Resets) on tables of 128-500 MB whose sizes are not powers of two, with keys in the last and first slots and next to the 64 MB block boundaries. Non-trivial = sequence with a same-slot different-key insert and a NewSearch between colliding inserts; distinct by op list.";
+pub const RULE: &str = "operation sequences over Insert(key, depth, bound, score, move; age = current generation, as the search does) / Probe(key) / NewSearch(x1..300) / Reset / Resize(mb) on TranspositionTable<SearchTranspositionTableData> of 0, 1, 2, 3 MB (thorough: also 64 and 1024). Keys are constructed to collide: key = slot + mult * entries for a few chosen slots, with multipliers that make the colliding keys differ only in low bits, only above bit 32 or only above bit 48, plus a few random keys. Reference model: slot -> set of admissible entries with the true (unbounded) search counter: a probe may return data only for exactly the stored key and then exactly the model's entry; entries of earlier searches always give way; within one search an exact entry is displaced only by an exact or deeper one; where the statement is silent (non-exact old entry, same search, new not deeper and not exact) both outcomes are kept and narrowed by the next observation; Reset and size-changing Resize empty the table (every probe misses, occupied == 0); occupied equals the model's count and occupancy() = floor(1000*occupied/entries) +- 1; no panic for any size or number of searches. A 'fill_indicator' part checks occupancy() at every 1/64 fill level (and around 2^32/1000 occupied slots) of tables from 1 to 256 MB (thorough: to 1024 MB). A 'big_table_edges' part runs the same model-based sequences (with many Resets) on tables of 128-500 MB whose sizes are not powers of two, with keys in the last and first slots and next to the 64 MB block boundaries. A 'new_game_after_many_searches' part runs 1-513 real searches (counts around 256 and 512 weigh most) on one search state, calls the engine's reset (what ucinewgame does) and demands an empty table. Non-trivial = sequence with a same-slot different-key insert and a NewSearch between colliding inserts; distinct by op list.";
 
 #[derive(Serialize, Deserialize, Clone, Debug, PartialEq)]
 pub enum Op {
@@ -427,6 +427,51 @@ pub fn run(run: &mut Run) -> &'static str {
             run_case(c, st)
         });
         run.workers = old;
+    }
+    // "resetting empties the table ... for any number of searches", through the engine's own reset path
+    // (what ucinewgame calls): k real searches on one state, then reset(), then the table must be empty
+    {
+        use super::searchlib::{build, run_search, Limit, SearchSpec};
+        let cases = tier.pick(32, 400);
+        let strat = (0usize..10, 0usize..3, proptest::collection::vec(any::<u16>(), 4..12));
+        run.proptest_part("new_game_after_many_searches", RULE, strat, cases, |(ki, hi, picks): &(usize, usize, Vec<u16>), st: &mut Stats| {
+            let k = [1usize, 2, 17, 255, 256, 256, 257, 511, 512, 513][*ki];
+            let hash_mb = [1usize, 1, 2][*hi];
+            let roots = crate::gen::roots();
+            let mut state = crate::engine::search::PersistentState::new(hash_mb);
+            let mut last_key = None;
+            for i in 0..k {
+                let r = &roots[(picks[i % picks.len()] as usize + i / picks.len()) % roots.len()];
+                let spec = SearchSpec { fen: r.to_fen(), moves: vec![], limit: Limit::Depth(1 + (i % 2) as u8) };
+                let Some((pos, game)) = build(&spec) else { continue };
+                if pos.legal_moves().is_empty() || pos.count(true, crate::refchess::Kind::Q) + pos.count(false, crate::refchess::Kind::Q) > 4 {
+                    continue;
+                }
+                run_search(&game, &mut state, &spec.limit, 0).map_err(|pm| Fail::new(&format!("search_panic:{}", panic_signature(&pm)), format!("search #{i} at {} panicked: {pm}", pos.to_fen())))?;
+                last_key = Some((game.zobrist, pos.to_fen()));
+            }
+            st.eval();
+            st.class(&format!("searches_before_the_reset:{k}"));
+            st.nontrivial(&(k, hash_mb, picks.clone()));
+            let filled = state.tt.occupancy();
+            state.reset();
+            if st.want_nontrivial_sample() {
+                st.nontrivial_sample(json!({"searches": k, "hash_mb": hash_mb, "hashfull_before_reset": filled}));
+            }
+            #[cfg(tt_pub_occupied)]
+            if state.tt.occupied != 0 {
+                return Err(Fail::new("clear:occupied_not_zero", format!("after {k} searches (hashfull {filled}) and the engine's reset, occupied = {}", state.tt.occupied)));
+            }
+            if state.tt.occupancy() != 0 {
+                return Err(Fail::new("clear:occupancy_not_zero", format!("after {k} searches (hashfull {filled}) and the engine's reset, occupancy() = {}", state.tt.occupancy())));
+            }
+            if let Some((key, fen)) = last_key {
+                if state.tt.get(&key).is_some() {
+                    return Err(Fail::new("clear:entry_survives", format!("after {k} searches and the engine's reset, the root of the last search ({fen}) is still found in the table")));
+                }
+            }
+            Ok(())
+        });
     }
     if tier == Tier::Thorough {
         // the largest advertised size: a handful of sequences on a 1024 MB table
